@@ -74,18 +74,18 @@ def rb_probe(ctx, exe):
     mis = [e for e in log if e["op"] == "misuse"]
     try:
         cap = reps[0]["cap"]
-        top = cap - 1
-        c = {"Cap": cap, "Reserve": cap - reps[0]["limit"], "NoLeakLen": reps[0]["apps"][0]["ret"]}
+        low = reps[1]["apps"][0]["lim"]             # the limit under which the listing is written
+        c = {"Cap": cap, "Reserve": cap - low, "NoLeakLen": reps[0]["apps"][0]["ret"]}
         assert reps[1]["stated"] == 1 and reps[1]["listed"] == 1 and not reps[1]["notice"] and reps[0]["stated"] == 0
         c["HeaderLen"] = reps[1]["apps"][0]["ret"]
-        foot = [a for a in reps[1]["apps"] if a["lim"] == top]
+        foot = [a for a in reps[1]["apps"] if a["lim"] != low]
         c["FooterBase"] = foot[0]["ret"] - 1
-        foot = [a for a in reps[2]["apps"] if a["lim"] == top]
+        foot = [a for a in reps[2]["apps"] if a["lim"] != low]
         c["WarnLen"] = foot[1]["ret"]
-        foot = [a for a in reps[3]["apps"] if a["lim"] == top]
+        foot = [a for a in reps[3]["apps"] if a["lim"] != low]
         assert reps[3]["notice"] and len(foot) == 2
         c["NoticeLen"] = foot[0]["ret"]
-        lead = [a for a in reps[1]["apps"] if a["lim"] != top]
+        lead = [a for a in reps[1]["apps"] if a["lim"] == low]
         nominal = {"MsgBase": mis[0]["apps"][0]["ret"], "ABase": mis[1]["apps"][1]["ret"], "FBase": mis[1]["apps"][2]["ret"],
                    "LBase": max(1, sum(a["ret"] for a in lead[1:]) - 1 - 63)}
     except (AssertionError, IndexError, KeyError) as ex:
